@@ -31,14 +31,22 @@ def decode (n : Nat) : String := String.ofList ((bytes n).map Char.ofNat)
 /-- `n!"text:p"` — the numeral of a name -/
 macro "n!" s:str : term => pure (Syntax.mkNumLit (toString (encode s.getString)))
 
-/-- the part after the first ':' (the local name of a display name) -/
+/-- the local name of a display name: after the first ':' of `prefix:local`, after the '}' of
+    `{namespace URI}local` (the form used for namespaces the schemas do not declare) -/
 def localPart (l : List Nat) : List Nat :=
-  match l.dropWhile (· != 58) with
-  | [] => l
-  | _ :: rest => rest
+  match l with
+  | 123 :: _ =>
+    (match l.dropWhile (· != 125) with
+     | [] => l
+     | _ :: rest => rest)
+  | _ =>
+    (match l.dropWhile (· != 58) with
+     | [] => l
+     | _ :: rest => rest)
 
 example : n!"a" = 97 := by decide
 example : bytes (n!"text:p") = [116, 101, 120, 116, 58, 112] := by decide
 example : localPart (bytes (n!"text:p")) = [112] := by decide
+example : localPart (bytes (n!"{urn:x:y}p")) = [112] := by decide
 
 end OdfModel.GrammarNamesCodec
